@@ -31,6 +31,18 @@ CHECKS = {
         technique="TLA+ refinement (algorithm vs file machine) by TLC; state-graph transition replay; trace validation by TLC",
         design="4/C09",
     ),
+    "C20": dict(
+        specs=["CodecR.tla", "Codec.tla", "CodecIO.tla"],
+        text="The laws the property states (XOR length-preserving / self-inverse / identity keys, NetBIOS round trip at every "
+        "offset, pack/unpack inverses, classifier shape) are model-checked on the reference operators for every input of the "
+        "small model; TLC-computed tables (all data/key pairs over {0,1,255}, all bytes, all short URIs, boundary integers of "
+        "every width) are replayed through utils.*; seeded random calls incl. generated stager URIs and the pcap staged-beacon "
+        "gate are judged by TLC.",
+        note="Trusted: TLC, CodecR, the harness' int<->limb conversion (TLC integers are 32-bit). checksum8 is taken as defined by "
+        "Cobalt Strike/Metasploit (sum of non-slash characters mod 256, 0 below 4 characters).",
+        technique="TLC-evaluated reference tables replayed into the code + recorded calls judged by TLC",
+        design="4/C20",
+    ),
 }
 
 NOT_YET = "check not built yet in this round; planned in DESIGN.md section 4"
